@@ -23,6 +23,7 @@ type c16Obs struct {
 	Stk   int    `json:"stk"`
 	Scope int    `json:"scope"`
 	Fn    int    `json:"fn"`
+	NLab  int    `json:"nlab"`
 	VB    bool   `json:"vblock,omitempty"`
 }
 
@@ -36,6 +37,23 @@ type c16Case struct {
 func runC16One(f *irFunc) (c c16Case, unbalanced []string) {
 	c.Fn = f
 	c.Src = f.source()
+	var allLabels []string
+	var collect func(l []*irStmt)
+	collect = func(l []*irStmt) {
+		for _, s := range l {
+			if s.K == "labeled" {
+				allLabels = append(allLabels, s.Label)
+			}
+			collect(s.Body)
+			if s.Else != nil {
+				collect([]*irStmt{s.Else})
+			}
+			for _, cl := range s.Clauses {
+				collect(cl.Body)
+			}
+		}
+	}
+	collect(f.Body)
 	scopes := map[*types.Scope]int{}
 	fns := map[*gogen.Func]int{}
 	var b *irBuild
@@ -52,11 +70,18 @@ func runC16One(f *irFunc) (c c16Case, unbalanced []string) {
 			}
 			fid = fns[fn]
 		}
-		c.Obs = append(c.Obs, c16Obs{Op: op, Stk: cb.InternalStack().Len(), Scope: scopes[sc], Fn: fid, VB: cb.InVBlock()})
+		nl := 0
+		for _, name := range allLabels {
+			if _, ok := cb.LookupLabel(name); ok {
+				nl++
+			}
+		}
+		c.Obs = append(c.Obs, c16Obs{Op: op, Stk: cb.InternalStack().Len(), Scope: scopes[sc], Fn: fid, NLab: nl, VB: cb.InVBlock()})
 	}
 	b = newIRBuild(nil)
 	scopes[b.cb.Scope()] = 0
 	b.after = after
+	b.labelNames = allLabels
 	b.balance = func(kind string, ok bool) {
 		if !ok {
 			unbalanced = append(unbalanced, kind)
@@ -81,9 +106,11 @@ func (c c16Case) coq() string {
 		if !ok {
 			panic("c16: unknown op " + o.Op)
 		}
-		obs[i] = fmt.Sprintf("(%s, %d, %d, %d)", code, o.Stk, o.Scope, o.Fn)
+		obs[i] = fmt.Sprintf("(%s, %d, %d, %d, %d)", code, o.Stk, o.Scope, o.Fn, o.NLab)
 	}
-	return fmt.Sprintf("mkCase %s %s", body, coqList(obs))
+	var defs, uses []string
+	labelEvents(c.Fn.Body, &defs, &uses)
+	return fmt.Sprintf("mkCase %d %s %s", len(defs), body, coqList(obs))
 }
 
 func runC16(a *runArgs) error {
@@ -120,7 +147,7 @@ func runC16(a *runArgs) error {
 			if i%10 == 0 {
 				d = depth
 			}
-			f = genIRFunc(r, "F", d)
+			f = genIRFuncWith(&irGen{r: r, maxDepth: d, closureLabels: true, allowInline: true, noDupLabels: true}, "F", d)
 		}
 		c, unb := runC16One(f)
 		m.DirectRuns += len(c.Obs)
@@ -129,7 +156,7 @@ func runC16(a *runArgs) error {
 			// still emit what was observed so far
 		}
 		if len(unb) > 0 {
-			m.Direct = append(m.Direct, directViolation{Case: i, What: fmt.Sprintf("statement(s) %v did not restore stack length / scope / current function", unb), Replay: c})
+			m.Direct = append(m.Direct, directViolation{Case: i, What: fmt.Sprintf("statement(s) %v did not restore stack length / scope / current function / label context", unb), Replay: c})
 		}
 		term := c.coq()
 		cw.add(term)
